@@ -199,6 +199,7 @@ class Conn(object):
         self.all_delivered = []
         self.disconnected_at = None
         self.no_write_interest = []
+        self.wgen = {1: [0, b'']}
 
     def _on_msg(self, m):
         i = self.oracle.id_of(m)
@@ -217,6 +218,7 @@ class Conn(object):
 
     def _do_connect(self):
         self.gen += 1
+        self.wgen[self.gen] = [len(self.accepted), b'']     # where this connection's bytes start, what it was asked to send
         s = FakeSock(self.fd0 if self.reuse_fd else self.fd0 + 100 * self.gen, self.accepted)
         self.T.socket.pending = s
         ok = self.c.connect('127.0.0.1', 4321)
@@ -252,6 +254,24 @@ class Conn(object):
         self.conn_calls = 0
         return ob
 
+    def writer_problems(self):
+        """the writer side of C13 on one connection object through its lifetimes: what each socket accepted is a prefix
+        of the frames of the messages send() was given while that socket was the connection's (CONNECTING included) -
+        nothing dropped from the middle, nothing of an earlier lifetime"""
+        out = []
+        gens = sorted(self.wgen)
+        for i, g_ in enumerate(gens):
+            start, want = self.wgen[g_]
+            end = self.wgen[gens[i + 1]][0] if i + 1 < len(gens) else len(self.accepted)
+            got = bytes(self.accepted[start:end])
+            if not want.startswith(got):
+                k = next((j for j in range(min(len(got), len(want))) if got[j] != want[j]), min(len(got), len(want)))
+                out.append('connection #%d: the socket accepted %d bytes that are not a prefix of the %d bytes of the frames '
+                           'send() was given on it (first difference at byte %d): bytes were dropped or reordered'
+                           % (g_, len(got), len(want), k))
+                break
+        return out
+
     def _guard(self, fn):
         acc_before = len(self.accepted)
         try:
@@ -267,6 +287,9 @@ class Conn(object):
         payload = _zlib.compress(_pickle.dumps(msg, 2), 3)
         self.sock.sscript = list(script)
         self.events.append(('send', int(self.clock.now), payload, list(script)))
+        if self.c.state != self.T.CONNECTION_STATE.DISCONNECTED and self.gen in self.wgen:
+            import struct as _struct
+            self.wgen[self.gen][1] += _struct.pack('i', len(payload)) + payload
         self._guard(lambda: self.c.send(msg))
         self.sock.sscript = []
         return payload
